@@ -102,6 +102,9 @@ Apply(S, c) ==
             ELSE [S |-> S, res |-> <<"error", "EngineNotFoundError">>]
        [] op = "use_inst" -> [S |-> [S EXCEPT !.cur = [kind |-> c[3], id |-> c[2]]], res |-> <<"engine", c[3], c[2]>>]
        [] op = "net_step" -> [S |-> NetStep(S, KindOf(S, c[2]), c[3], c[4], c[5]), res |-> <<"ok", KindOf(S, c[2])>>]
+       \* a whole-network step that FAILS part-way (the caller forgot the sampling time): every element has been
+       \* re-initialised by then, nothing has been stepped; the caller catches the error and carries on
+       [] op = "net_step_fail" -> [S |-> InitAll(S, ElemOrder(S), KindOf(S, c[2])), res |-> <<"error", "any">>]
        [] op = "init" -> [S |-> InitEl(S, c[2], KindOf(S, c[3])),
                           res |-> <<"ok", KindOf(S, c[3])>>]
        [] op = "init_all" -> [S |-> InitAll(S, ElemOrder(S), KindOf(S, c[2])), res |-> <<"ok", KindOf(S, c[2])>>]
@@ -130,6 +133,8 @@ StepMakesReady(S, c, T) == c[1] = "net_step" => Ready(T)
 TouchUnreadies(S, c, T) ==
   (c[1] = "init" /\ c[2] \in Stateful /\ c[2] \in InNet(S) /\ S.nxt[c[2]].has) => ~Ready(T)
 AddUnreadies(S, c, T) == (c[1] = "add_later" /\ c[2] # "D1") => ~Ready(T)
+\* C19: a failed whole-network step leaves an unready network (variables re-created, nothing stepped from them)
+FailedStepUnreadies(S, c, T) == c[1] = "net_step_fail" => ~Ready(T)
 \* the congested destination added later has no variables yet: unready until it is initialised
 AddDestUnreadies(S, c, T) == (c[1] = "add_later" /\ c[2] = "D1") => ~Ready(T)
 \* C13 (UseSemantics)
@@ -144,5 +149,5 @@ ExplicitHonoured(S, c, T) ==
   /\ c[1] = "net_step" => /\ \A e \in InNet(T) \cap Declaring : T.vars[e] = KindOf(S, c[2])
                           /\ \A e \in InNet(T) \cap Stateful : T.nxt[e].has /\ T.nxt[e].kind = KindOf(S, c[2])
   /\ (c[1] = "init" /\ c[2] \in Declaring) => T.vars[c[2]] = KindOf(S, c[3])
-  /\ c[1] = "init_all" => \A e \in InNet(T) \cap Declaring : T.vars[e] = KindOf(S, c[2])
+  /\ c[1] \in {"init_all", "net_step_fail"} => \A e \in InNet(T) \cap Declaring : T.vars[e] = KindOf(S, c[2])
 =============================================================================
